@@ -188,7 +188,7 @@ package pubsub
 //@        (forall q string :: $visited[q] ==> q in tmap) && len(rspeers) <= $count
 //@   loop 2 invariant chosen: tosend != nil && (forall q string :: q in tosend ==> q in tmap && q != from && q != src) &&
 //@        (forall q string :: q in tmap && q != from && q != src && rs.peers[q] == FloodSubID ==> q in tosend)
-//@   loop 3 invariant all-randomsub: tosend != nil && (forall q string :: q in tosend ==> q in tmap && q != from && q != src) &&
+//@   loop 3 invariant all-randomsub: tosend != nil && tosend != rspeers && (forall q string :: q in rspeers ==> q in tmap && q != from && q != src) && (forall q string :: q in tosend ==> q in tmap && q != from && q != src) &&
 //@        (forall q string :: q in tmap && q != from && q != src && rs.peers[q] == FloodSubID ==> q in tosend) && (forall q string :: $visited[q] ==> q in tosend)
 //@   loop 4 invariant pushes-traced: calls((*rpcQueue).Push) - old(calls((*rpcQueue).Push)) ==
 //@        calls((*pubsubTracer).SendRPC) - old(calls((*pubsubTracer).SendRPC)) + calls((*pubsubTracer).DropRPC) - old(calls((*pubsubTracer).DropRPC))
